@@ -54,8 +54,11 @@ func looseEqual(a, b interface{}, top bool) bool {
 	bm, bok := b.(map[string]interface{})
 	if aok || bok {
 		if !aok || !bok {
+			// a one-element list equals its element
+			_, aIsL := a.([]interface{})
+			_, bIsL := b.([]interface{})
 			al, bl := asList(a), asList(b)
-			if len(al) == 1 && len(bl) == 1 && (aok != bok) {
+			if (aIsL || bIsL) && len(al) == 1 && len(bl) == 1 {
 				return looseEqual(al[0], bl[0], false)
 			}
 			return false
